@@ -47,6 +47,21 @@ def run(ck: Check, prog: Program) -> None:
     for t in rs:
         ck.finding('NONINTERF', t.func.qualname, f'per-element value stored in shared state: {t.text[:40]}', t.func.module.rel, t.line,
                    f'`{t.text}` stores a per-element value into {t.sink}')
+    # a memo keyed by the CLIENT'S ARGUMENTS hands one element the object computed for another whose arguments merely compare equal
+    # (1 == True == 1.0, 0 == False): the elements are no longer answered independently
+    keyed = [t for t in eff.retentions() if t.sink.startswith('cache key') and 'params' in str(getattr(t, 'value', '') or t.text).split('(per-request')[0]]
+    ck.ob('NONINTERF', 'no memoised function under the per-element handler is keyed by the request parameters', not keyed)
+    for t in keyed:
+        ck.finding('NONINTERF', t.func.qualname, f'memo keyed by the request parameters: {t.text[:40]}', t.func.module.rel, t.line,
+                   f'`{t.text}` looks the result up in a cache whose key contains the client\'s arguments ({t.sink}): arguments that compare equal '
+                   f'without being the same JSON value (1, true, 1.0) share one cached result, so an element of a batch — or a later request — is '
+                   f'answered with what was computed for another one')
+    from .dfacts import method_call_facts
+    _, mprob = method_call_facts(prog, interp, r)
+    badm = [p for p in mprob if p[0] == 'ONCE-INVOKE']
+    ck.ob('PER-ELEMENT-ONCE', 'the method of every element runs exactly once (a coroutine it returns is awaited whenever there is one)', not badm)
+    for rule, construct, line, msg in badm:
+        ck.finding('PER-ELEMENT-ONCE', r.handle_rpc_method.qualname, construct, r.dispatch.module.rel, line, msg)
     facts, problems = batch_facts(prog, r)
     bad = [p for p in problems if p[0] in ('ORDER-MAP', 'PER-ELEMENT-ONCE', 'FILTER-UNSET')]
     ck.ob('ORDER-MAP', 'the join of the element handlers preserves request order', not bad, sample={'facts': facts})
